@@ -1,13 +1,13 @@
 package c12
 
 import (
-	"time"
 	"fmt"
 	"io"
 	"log"
 	"sync"
 	"sync/atomic"
 	"testing"
+	"time"
 
 	logging "github.com/ipfs/go-log/v2"
 
